@@ -431,8 +431,11 @@ def rule_R5(text, args, log):
 
 
 def rule_R6(text, args, log):
-    """for PAT in E.iter() {  ->  for vx_e in E.iter() { let PAT' = *vx_e;   (tuple patterns only;
-    PAT' = PAT with `ref` added to every binding that lacks it)"""
+    """slice-iteration for-loop with a tuple pattern, desugared to an index loop:
+         for PAT in E.iter() { B }   (or `in &E`)
+      -> let mut vx_i: usize = 0; while vx_i < E.len() { let PAT' = E[vx_i]; vx_i += 1; B }
+    PAT' = PAT with `ref` added to every binding that lacks it (the loop variable was a reference).
+    The increment precedes B so that `continue` keeps its meaning (Verus for-loops reject `continue`)."""
     n = 0
     pos = 0
     while True:
@@ -441,7 +444,11 @@ def rule_R6(text, args, log):
             break
         pat = m.group(1)
         expr = m.group(2).strip()
-        if not (expr.endswith('.iter()') or expr.startswith('&')):
+        if expr.endswith('.iter()'):
+            base = expr[:-len('.iter()')]
+        elif expr.startswith('&'):
+            base = expr[1:].strip()
+        else:
             pos = m.end()
             continue
         parts = [p.strip() for p in pat[1:-1].split(',')]
@@ -453,15 +460,32 @@ def rule_R6(text, args, log):
                 newparts.append('ref ' + p.lstrip('&'))
             else:
                 raise ExtractError('unsupported', 'R6: pattern %s' % pat)
-        name = 'vx_e%d' % n if n else 'vx_e'
-        if expr.startswith('&'):
-            expr = expr[1:].strip() + '.iter()'
-        new = 'for %s in %s { let (%s) = *%s;' % (name, expr, ', '.join(newparts), name)
+        name = 'vx_i%d' % n if n else 'vx_i'
+        new = ('let mut %s: usize = 0;\n        while %s < %s.len() { let (%s) = %s[%s]; %s += 1;'
+               % (name, name, base, ', '.join(newparts), base, name, name))
         text = text[:m.start()] + new + text[m.end():]
         pos = m.start() + len(new)
         n += 1
     if n:
-        log.append(('R6', 'tuple-pattern for x%d' % n))
+        log.append(('R6', 'tuple-pattern slice for-loop -> index loop x%d' % n))
+    return text
+
+
+def rule_INLINE(text, args, log):
+    """inline a trivial accessor: INLINE(file=..;;container=..;;fn=NAME;;body=TEXT;;call=.NAME();;to=.TEXT')
+    The accessor's body in /repo must be exactly `body` (checked on every run); every `call` is replaced by `to`."""
+    for k in ('file', 'container', 'fn', 'body', 'call', 'to'):
+        if k not in args:
+            raise ExtractError('bad-template', 'INLINE needs %s=' % k)
+    sf = SourceFile.get(args['_repo'], args['file'])
+    it = sf.find(args['container'], 'fn', args['fn'])
+    btxt = strip_comments(sf.text[it.body[0] + 1:it.body[1]])
+    if norm_tokens(btxt) != norm_tokens(args['body']):
+        raise ExtractError('anchor-lost', 'INLINE: body of %s is `%s`, expected `%s`' % (args['fn'], norm_ws(btxt), args['body']))
+    c = text.count(args['call'])
+    if c:
+        text = text.replace(args['call'], args['to'])
+        log.append(('INLINE', '%s -> %s x%d (accessor body checked)' % (args['call'], args['to'], c)))
     return text
 
 
@@ -529,7 +553,7 @@ def rule_SUB(text, args, log):
 
 RULES = {
     'R1': rule_R1, 'R2': rule_R2, 'R3': rule_R3, 'R4': rule_R4, 'R5': rule_R5, 'R6': rule_R6,
-    'R9': rule_R9, 'R10': rule_R10, 'SUB': rule_SUB,
+    'R9': rule_R9, 'R10': rule_R10, 'SUB': rule_SUB, 'INLINE': rule_INLINE,
 }
 
 
@@ -899,11 +923,13 @@ def extract_item(repo_root, rel, container, kind, name, opts, unit_rules, sectio
     log = []
     rules = list(unit_rules)
     if 'rules' in opts:
-        rules = rules + parse_rules(opts['rules'])
+        rules = parse_rules(opts['rules']) + rules   # per-extract rules run first
     skip = set(opts.get('skip', '').split(',')) if 'skip' in opts else set()
     for rid, args in rules:
         if rid in skip:
             continue
+        args = dict(args)
+        args['_repo'] = repo_root
         text = RULES[rid](text, args, log)
     if kind == 'fn':
         text = splice(text, sections, where)
